@@ -886,7 +886,7 @@ def convert_to_labels(
     }
 
     # for quantitative features getting labels per quantile
-    if any(quantitative_features):
+    if len(quantitative_features) > 0:
         # getting group "name" per quantile
         quantiles_labels, _ = get_quantiles_labels(quantitative_features, values_orders, str_nan)
 
@@ -920,7 +920,7 @@ def convert_to_values(
 ) -> dict[str, Any]:
     """Converts a values_orders labels to values (quantiles)"""
     # for quantitative features getting labels per quantile
-    if any(quantitative_features):
+    if len(quantitative_features) > 0:
         # getting quantile per group "name"
         _, labels_to_quantiles = get_quantiles_labels(quantitative_features, values_orders, str_nan)
 
